@@ -96,8 +96,14 @@ func (c *Ctx) Floor(id, rule string, n, floor int) {
 	}
 	rs.Instances = n
 	rs.Floor = floor
-	if n < floor {
-		c.Undec(id, rule, "instance-floor", token.NoPos, fmt.Sprintf("rule matched %d instances, fewer than the %d confirmed by reading: the rule no longer sees the code it was written for", n, floor))
+	// `floor` is the number of instances confirmed by reading the pinned tree. Merging duplicated code into one
+	// helper legitimately lowers such a count, so the check is declared unable to decide only when the rule sees
+	// nothing, or less than half of what it was confirmed on (it has then lost sight of the code it was written
+	// for); the evidence always records both numbers.
+	if n == 0 && floor > 0 || 2*n < floor {
+		c.Undec(id, rule, "instance-floor", token.NoPos, fmt.Sprintf("rule matched %d instances, the pinned tree had %d: the rule no longer sees the code it was written for", n, floor))
+	} else if n < floor {
+		c.Notes = append(c.Notes, fmt.Sprintf("%s-%s %s: %d instances (pinned tree: %d)", c.Prop, id, rule, n, floor))
 	}
 }
 
